@@ -348,3 +348,80 @@ func zzH_C11c() {
 		vReach("end")
 	})
 }
+
+// zzH_STR2: two streams and a unary call share one connection; the environment interleaves pushes for
+// both streams and the unary reply; each stream reader must get exactly its own messages in order and
+// the unary call its own reply.
+func zzH_STR2() {
+	m := newZZMsgs(8)
+	m.out = make(chan []byte, 8)
+	conn := NewConnWithCodec(NewClientCodec(&zzBytesCodec{}, nil, m, 64))
+	if vChoose("directIO", 2) == 1 {
+		conn.directIO = true
+	}
+	sent := [2][][]byte{}
+	for s := 0; s < 2; s++ {
+		for i := 0; i < 2; i++ {
+			sent[s] = append(sent[s], append([]byte{byte(0xA0 + s)}, vBytesN("msg", 1)...))
+		}
+	}
+	var got [2][][]byte
+	var seqs [2]uint64
+	opened := [2]bool{}
+	for s := 0; s < 2; s++ {
+		s := s
+		vGo("reader", func() {
+			st, err := conn.NewStream("S.Watch")
+			if err != nil {
+				return
+			}
+			opened[s] = true
+			for i := 0; i < 2; i++ {
+				var msg []byte
+				if st.ReadMessage(nil, &msg) != nil {
+					return
+				}
+				got[s] = append(got[s], msg)
+			}
+		})
+		// acknowledge this stream's open request before the next stream is opened, so that the
+		// harness knows which sequence number belongs to which reader
+		f := <-m.out
+		var open pbRequest
+		open.Unmarshal(f)
+		seqs[s] = open.Seq
+		m.deliver(zzResponse(open.Seq, "", nil))
+		vQuiesce()
+	}
+	a := []byte{0x55}
+	var r []byte
+	done := make(chan *Call, 1)
+	c := conn.Go("S.Echo", &a, &r, done)
+	f := <-m.out
+	var rq pbRequest
+	rq.Unmarshal(f)
+	// interleavings of the five frames that keep each stream's own order
+	order := [][]int{{0, 1, 2, 0, 1}, {1, 0, 2, 1, 0}, {0, 0, 1, 1, 2}, {2, 1, 1, 0, 0}, {1, 2, 0, 1, 0}}[vChoose("order", 5)]
+	next := [2]int{}
+	for _, who := range order {
+		if who == 2 {
+			m.deliver(zzResponse(rq.Seq, "", zzReplyFor(rq.Args)))
+		} else {
+			m.deliver(zzResponse(seqs[who], "", sent[who][next[who]]))
+			next[who]++
+		}
+	}
+	vQuiesce()
+	m.fail(io.EOF)
+	vAtEnd(func() {
+		for s := 0; s < 2; s++ {
+			vAssert(opened[s], "stream-opened")
+			vAssert(len(got[s]) == 2, "all-messages-delivered")
+			for i := 0; i < len(got[s]) && i < 2; i++ {
+				vAssert(vEqBytes(got[s][i], sent[s][i]), "messages-in-order-unmodified")
+			}
+		}
+		vAssert(len(done) == 1 && c.Error == nil && vEqBytes(r, zzReplyFor(a)), "unary-call-unaffected-by-streams")
+		vReach("end")
+	})
+}
